@@ -214,6 +214,46 @@ def run(ctx):
                       "Return is not reachable from any %s test in the writer loop" % what,
                       "%d test site(s) lead to Return" % exits)
 
+    # ------------------------------------------------------------------ R05.6 the shutdown drain stops only when empty or out of time
+    from mq.prov import Prov as _Prov
+    nd = 0
+    for b in run_bodies:
+        cands = [b] + [sb for c in b.calls() for sb in local_callee_bodies(F, c) if sb.crate == BG]
+        for sroutine in cands:
+            ok_s, _ = shutdown_summary(F, sroutine)
+            if not ok_s:
+                continue
+            for c in sites_reaching(F, sroutine, is_pop):
+                if c.bb in sroutine.reachable_after(c.bb):
+                    continue        # the routine itself re-drains in a loop: its own loop condition decides
+                for d in local_callee_bodies(F, c):
+                    if d.crate != BG or not any(is_pop(x) for x in d.calls()):
+                        continue
+                    nd += 1
+                    pr = _Prov(d)
+                    stops = []
+                    for p_ in [x for x in d.calls() if is_pop(x)]:
+                        for sw, tg, oth in switch_on_call_result(d, p_):
+                            stops.append(tg.get(0, oth))          # None arm
+                    for i in d.live_blocks():
+                        t = d.term(i)
+                        if t["k"] != "switch":
+                            continue
+                        o = pr.operand(t["discr"])
+                        cmps = [x[1] for x in o if x[0] == "call" and (d.term(x[1]).get("callee") or {}).get("name") in ("ge", "gt", "le", "lt")]
+                        for cb_ in cmps:
+                            ao = set()
+                            for a in d.term(cb_)["args"]:
+                                ao |= pr.operand(a)
+                            if any(x[0] == "call" and (d.term(x[1]).get("callee") or {}).get("name") in ("now", "elapsed") for x in ao):
+                                stops += [tb for v, tb in t["targets"]] + [t["otherwise"]]
+                                stops.remove([tb for v, tb in t["targets"] if v == 0][0]) if any(v == 0 for v, _ in t["targets"]) else None
+                    ctx.check(bool(stops) and d.must_pass(stops), "R05.6", fnkey(d) + "#drain-stops-only-when-empty-or-out-of-time", loc(d),
+                              "the drain used at shutdown can stop although the ring is not empty and the deadline has not passed (an additional exit "
+                              "condition): entries appended before the shutdown began would be discarded unwritten",
+                              "every exit passes the ring-empty arm or the deadline arm")
+    ctx.floor("R05.6", "drain routines used by the shutdown routine", nd, 1)
+
     # ------------------------------------------------------------------ R05.3 uniqueness test vs live clone
     n_tests = 0
     for b in F.all_bodies(WS_LIBS):
